@@ -118,4 +118,74 @@ CONTRACTS = {
         ],
         loops=[{"invariant": []}],
     ),
+    TA + "AsyncRunnerTemplate.map": dict(
+        props=["C08", "C10", "C12", "C15"],
+        params={"self": OBJ("AsyncRunnerTemplate"), "graph": GRAPH, "values": OPT(DICT(STR, ANY)), "map_over": ANY, "map_mode": STR, "clone": ANY, "select": ANY, "on_missing": STR,
+                "on_internal_override": STR, "entrypoint": OPT(STR), "max_concurrency": OPT(INT), "error_handling": STR, "event_processors": ANY, "_parent_span_id": OPT(STR),
+                "input_values": DICT(STR, ANY)},
+        returns=SEQ(OBJ("RunResult")),
+        may_raise={"BaseException": True},
+        trace=[
+            {"name": "C08 map: validators and input expansion precede every effect; a rejected or empty map has no effect",
+             "check": before_effects(MAP_VALIDATORS, {"_create_dispatcher", "_emit_run_start_async", "_emit_run_end_async", "_shutdown_dispatcher_async", "_run_map_item", "_worker"})},
+            {"name": "C12 map: RunStart(is_map) .. exactly one RunEnd on every path; item runs between; shutdown last",
+             "check": bracket("_emit_run_start_async", "_emit_run_end_async", body={"_run_map_item", "_worker", "gather"}, shutdown="_shutdown_dispatcher_async")},
+            {"name": "C15 map: the shared limiter is installed only when none is active and a limit was given, and reset on every path before shutdown",
+             "check": lambda tr, outcome, raised, env, ex, s: __import__("contracts.c_templates", fromlist=["x"]).map_limiter(tr, outcome, raised, env, ex, s)},
+        ],
+        loops=[{"invariant": []}, {"invariant": []}, {"invariant": []}, {"invariant": []}],
+    ),
+    TA + "AsyncRunnerTemplate.map._run_map_item": dict(
+        props=["C10", "C11"],
+        params={"variation_inputs": DICT(STR, ANY), "self": OBJ("AsyncRunnerTemplate"), "graph": GRAPH, "select": ANY, "on_missing": STR, "on_internal_override": STR,
+                "entrypoint": OPT(STR), "max_concurrency": OPT(INT), "event_processors": ANY, "map_span_id": STR},
+        returns=OBJ("RunResult"),
+        may_raise={"BaseException": True},
+        # one item never takes the others down with an ordinary exception: it comes back as a FAILED result
+        trace=[{"name": "C10/C11 an item's Exception is returned as a FAILED RunResult (only non-Exception BaseExceptions escape)",
+                "check": lambda tr, outcome, raised, env, ex, s: __import__("contracts.c_templates", fromlist=["x"]).item_never_raises_exception(tr, outcome, raised, env, ex, s)}],
+    ),
+    TA + "AsyncRunnerTemplate.map._worker": dict(
+        props=["C10"],
+        params={"stop_event": ANY, "queue": ANY, "results_list": SEQ(ANY), "order": SEQ(INT), "error_handling": STR, "_run_map_item": ANY},
+        callables={"_run_map_item": {"raises": ["BaseException"], "returns": OBJ("RunResult"), "coroutine": True}},
+        returns=NONE_T,
+        may_raise={"BaseException": True},
+        trace=[],
+        loops=[{"invariant": []}],
+    ),
 }
+
+
+def map_limiter(tr, outcome, raised, env, ex, s):
+    import z3
+    ns = names(tr)
+    sets, resets = ns.count("_set_concurrency_limiter"), ns.count("_reset_concurrency_limiter")
+    if sets > 1 or resets > sets:
+        return False
+    started = "_emit_run_start_async" in ns
+    if sets == 1 and started and resets != 1:
+        # installed but not reset on this path: only if the installer handed back no token (cannot happen for a ContextVar
+        # token; the declared return type of the hook is untyped, so the path exists symbolically)
+        from pyvc import smt
+        tok = env.get("token")
+        return tok.t == smt.NONE if getattr(tok, "t", None) is not None else False
+    if resets == 1 and "_shutdown_dispatcher_async" in ns and ns.index("_reset_concurrency_limiter") > ns.index("_shutdown_dispatcher_async"):
+        return False
+    return True
+
+
+def item_never_raises_exception(tr, outcome, raised, env, ex, s):
+    import z3
+    from pyvc import smt
+    if not outcome.startswith("raise"):
+        return True
+    if raised is None or raised.exc is None:
+        return raised is not None and raised.cls not in ("Exception",) and not ex_is_exception(raised.cls)
+    return z3.Not(smt.inst_pred("Exception")(raised.exc.t))
+
+
+def ex_is_exception(cls):
+    import builtins
+    c = getattr(builtins, cls, None)
+    return isinstance(c, type) and issubclass(c, Exception)
